@@ -4,12 +4,15 @@ import (
 	"encoding/json"
 	"flag"
 	"fmt"
+	"go/types"
 	"os"
 	"path/filepath"
 	"regexp"
 	"sort"
 	"strings"
 	"time"
+
+	"golang.org/x/tools/go/ssa"
 )
 
 func main() {
@@ -579,14 +582,52 @@ func cmdParams(args []string) int {
 	}
 	for _, cf := range e.files {
 		for _, fc := range cf.Funcs {
-			if fc.Extern || len(fc.Params) > 0 || fc.PkgPath == "" {
+			if fc.Extern || fc.PkgPath == "" {
 				continue
 			}
 			fn := e.findFunc(fc.PkgPath, fc.Key)
 			if fn == nil {
 				continue
 			}
-			if len(fn.Params) == 0 {
+			if len(fc.Locals) == 0 && len(fc.Loops) > 0 {
+				in := map[string]bool{}
+				for _, l := range fc.Loops {
+					for _, c := range l.Invariants {
+						for _, t := range identTok.FindAllString(c.Src, -1) {
+							in[t] = true
+						}
+					}
+				}
+				var parts []string
+				seen := map[string]bool{}
+				add := func(a *ssa.Alloc) {
+					isParam := a.Comment == "rangeindex"
+					for _, p := range fc.Params {
+						isParam = isParam || p == a.Comment
+					}
+					for _, p := range fn.Params {
+						isParam = isParam || p.Name() == a.Comment
+					}
+					if in[a.Comment] && !seen[a.Comment] && !isParam {
+						seen[a.Comment] = true
+						parts = append(parts, a.Comment+": "+types.TypeString(deref(a.Type()), nil))
+					}
+				}
+				for _, a := range fn.Locals {
+					add(a)
+				}
+				for _, b := range fn.Blocks {
+					for _, ins := range b.Instrs {
+						if a, ok := ins.(*ssa.Alloc); ok && a.Heap {
+							add(a)
+						}
+					}
+				}
+				if len(parts) > 0 {
+					fmt.Printf("%s:%d: locals %s\n", fc.File, fc.Line, strings.Join(parts, "; "))
+				}
+			}
+			if len(fc.Params) > 0 || len(fn.Params) == 0 {
 				continue
 			}
 			fmt.Printf("%s:%d: params %s\n", fc.File, fc.Line, strings.Join(paramNames(fn.Signature, nil), ", "))
